@@ -8,7 +8,7 @@ THEOREMS = ["IsoVerif.Props.C08." + t for t in ("C08_no_panic_partial", "C08_mod
                                                 "C08_witness_loadable_without_refetch_strategy")]
 HARNESS = ("hx_arts", {"HX_ENGINE": "crash"})
 DRIVER = "drv_arts"
-CASES = {"quick": 160, "thorough": 8000}
+CASES = {"quick": 160, "thorough": 5000}
 TECHNIQUE = ("subprocess oracle: generated projects (valid; single-fault mutants; one stream per known-defect switch of hx_projgen: cycles, @loadable without refetch strategy / over nested refetch paths, "
              "variables below asConcreteType, cross-type pointers, pointer variables, pointers to unfetchable types, unparseable values), byte-level mutations of the three demo projects (sources, schemas, "
              "extensions, configs) and hand-written witnesses go through the real isograph_cli binary: exit 0 with artifacts or exit 1 with a diagnostic, never exit 101, a signal or a timeout; the same "
